@@ -31,7 +31,7 @@ def run(ctx):
     quick = ctx.tier == "quick"
     ecfg, rcfg, xcfg = ("VersionedTree_iqe.cfg", "VersionedTree_iqr.cfg", "VersionedTree_iq.cfg") if quick else \
                        ("VersionedTree_ite.cfg", "VersionedTree_itr.cfg", "VersionedTree_it.cfg")
-    n_s, n_l = (60, 16) if quick else (3000, 500)
+    n_s, n_l = (60, 16) if quick else (2000, 300)
     procs = 1 if quick else 6
     jobs = [
         lambda: R.tlc(ecfg, "exhaustive+edges 3 keys " + ecfg, tags=("EDGE",), timeout=3000, workers=6),
